@@ -194,6 +194,40 @@ def scenarios_c10(rng, n, maximgs, thorough):
     return out
 
 
+def cancel_clause_c10(rep, scens, label="C10ctx"):
+    """C10, last clause, for interruption by a cancelled context: every legacy store that lost nothing is opened with a
+    context that expires at its n-th check, for EVERY n up to the number of checks the open makes (engine upgctx); what
+    each interrupted attempt leaves is opened again and judged by the interrupted-upgrade rule of CrashTrace.tla."""
+    scens = [dict(sc, legacy=dict(sc["legacy"], ctxN=sc["legacy"].get("ctxN", 0) if sc.get("ctxReplay") else 0)) for sc in scens
+             if sc.get("legacy") and sc["legacy"].get("lost", 0) == 0]
+    if not scens:
+        return []
+    d = vlib.subdir("upgctx." + label)
+    sf = os.path.join(d, "scen.ndjson")
+    vlib.write_ndjson(sf, scens)
+    files, summ = vlib.run_harness("upgctx", sf, os.path.join(d, "trace"), workers=min(vlib.WORKERS, len(scens)), timeout=1800)
+    bad, n1, _ = vlib.validate_traces("CrashTrace", "CrashTrace.cfg", files)
+    cases = load_cases(files)
+    rep.cov["evaluations"] += n1
+    rep.cov["traces_validated_against_impl"] += len(cases)
+    rep.cov["upgrades_interrupted_by_an_expiring_context"] = rep.cov.get("upgrades_interrupted_by_an_expiring_context", 0) + summ.get("interrupted_opens", 0)
+    rep.cov["legacy_stores_with_every_context_check_as_interruption_point"] = rep.cov.get("legacy_stores_with_every_context_check_as_interruption_point", 0) + len(scens)
+    viol, seen = [], set()
+    for b in sorted(bad, key=lambda b: (b["t"], b["i"])):
+        key = (b["t"], b["i"])
+        if key in seen:
+            continue
+        seen.add(key)
+        e = cases.get(key, {})
+        rules = sorted({x["rule"] for x in bad if (x["t"], x["i"]) == key})
+        sc = scens[b["t"]]
+        viol.append(("%s (upgrading open interrupted by a context that expires at its check #%s: %r; then opened again)" % (",".join(rules), e.get("fsop"), e.get("first")),
+                     {"engine": "upgctx", "scenario": dict(sc, ctxReplay=True, legacy=dict(sc["legacy"], ctxN=e.get("fsop", 0))), "rules": rules}))
+    for c in summ.get("crashed", []):
+        viol.append(("the harness dies or hangs while an upgrade interrupted by an expiring context is resumed", {"engine": "upgctx", "scenario": scens[c["t"]], "rules": ["process-crash-or-hang"]}))
+    return viol
+
+
 def crash_clause_c09(rep, rng, thorough):
     """C09, third sentence: an interrupted re-bucketing never leaves a store that opens with fewer keys."""
     # (thorough: all images x all byte prefixes of 60 translations did not finish in 35 minutes; a seeded sample of 600 per scenario does)
@@ -444,6 +478,9 @@ def run(pid):
         for what, obj in v5:
             rep.violation("complete upgrade: " + what, obj)
         rep.cov["complete_upgrades_judged_with_the_freelist_accounting_rule"] = len(fin)
+        # interruption by a cancelled context instead of a crash: every context check of the upgrading open
+        for what, obj in cancel_clause_c10(rep, scens):
+            rep.violation(what, obj)
     if pid == "C03":
         # collector-focused batch: histories that leave unreferenced index files and dead primary records behind, then one
         # index GC cycle with the free-file scan, one primary GC cycle and one index GC cycle without the scan - with EVERY
@@ -491,7 +528,9 @@ def run(pid):
         rep.cov["rule"] = ("every file-system call boundary of the traced upgrading open (strace) and byte prefixes of appended / overwritten regions; a seeded sample of 120 images per "
                            "legacy store (all in the thorough tier); each image is opened again by the real OpenStore (the resumed upgrade), every key read and compared with the legacy map, "
                            "legacy files must be gone, then a continuation (writes, flush, GC cycles, reopen by rescan) is executed; the order of the file-system calls of every traced "
-                           "upgrade is matched against Upgrade.tla; distinct = images, non-trivial = all")
+                           "upgrade is matched against Upgrade.tla; for every legacy store that lost nothing the upgrading open is also interrupted by a context that expires at its "
+                           "n-th check, for EVERY n up to the number of checks the open makes, and what each attempt leaves is opened again and judged by the same rule; "
+                           "distinct = images, non-trivial = all")
     rep.assumptions = ["TLC + Json module", "strace reports every traced call of the child in order (the reconstructed final image is asserted byte-identical to the real directory)",
                        "a process crash loses nothing that a completed system call wrote (no fsync modelling); torn writes are prefixes of one write call",
                        "the call in flight at the crash may or may not have taken effect"]
@@ -503,7 +542,10 @@ def replay(pid, path):
     with open(path) as f:
         obj = json.load(f)
     vlib.build_harness()
-    viol, known, _ = run_crash(rep, [obj["scenario"]], "replay")
+    if obj.get("engine") == "upgctx":
+        viol, known = cancel_clause_c10(rep, [obj["scenario"]], "replay"), {}
+    else:
+        viol, known, _ = run_crash(rep, [obj["scenario"]], "replay")
     for what, o in viol:
         rep.violation(what, o)
     print("replay: %d failing images, known-finding images %s" % (len(viol), known))
